@@ -128,9 +128,28 @@ impl Check for C10 {
             _ => {
                 let n = ctx.rng.below(5);
                 let mut keys: Vec<Item> = (0..n).map(|_| model::enc_key(&gen::gen_key(&mut ctx.rng))).collect();
-                if n > 0 && ctx.rng.chance(2, 3) {
+                if n > 0 && ctx.rng.chance(1, 2) {
                     let i = ctx.rng.below(n);
                     keys[i] = gen::mutate_item(&mut ctx.rng, &keys[i]);
+                }
+                if n > 0 && ctx.rng.chance(1, 2) {
+                    // the same key several times (adjacent and not): a key set is a sequence
+                    let i = ctx.rng.below(n);
+                    let k = keys[i].clone();
+                    keys.insert(i, k.clone());
+                    if ctx.rng.coin() {
+                        keys.push(k);
+                    }
+                }
+                if ctx.rng.chance(1, 40) {
+                    // long key sets: every element is validated and kept
+                    let k = model::enc_key(&gen::gen_key(&mut ctx.rng));
+                    let total = 250 + ctx.rng.below(60);
+                    keys = (0..total).map(|_| k.clone()).collect();
+                    if ctx.rng.coin() {
+                        let at = total - 1 - ctx.rng.below(40);
+                        keys[at] = Item::Map(vec![(Item::int(1), Item::int(0))]);
+                    }
                 }
                 iff::offer(ctx, &Item::Array(keys), &TYPES, 1, false, true);
             }
